@@ -45,8 +45,8 @@ def functions():
 
 
 def bounds(tier, prop):
-    n = 4 if tier == "quick" else 5
-    return {"old path frames": f"3..{n} each, sum <= {7 if tier == 'quick' else 9}", "length limit": f"symbolic integer in [3, {n + 1}]",
+    return {"old path frames": f"3..4 each, sum <= {7 if tier == 'quick' else 8}",
+            "length limit": "symbolic integer in [3, 5]" + ("" if tier == "quick" else " ([3, 6] for sums <= 7)"),
             "new frames per propagation": "up to the limit (never binding)", "outside": "longer paths / limits"}
 
 
@@ -65,23 +65,25 @@ def instances(tier, prop):
 
 def _instances(tier, prop):
     out = []
-    n = 4 if tier == "quick" else 5
+    quick = tier == "quick"
+    n = 4
     for L0 in range(3, n + 1):
         for L1 in range(3, n + 1):
-            if L0 + L1 > (7 if tier == "quick" else 9):
+            if L0 + L1 > (7 if quick else 8):
                 continue
+            big = L0 + L1 >= 8
             for ens0 in ("minus", "minus_lm1"):
                 for moves in (("sh", "sh"), ("sh", "wf")):
                     heavy = ens0 == "minus_lm1" and moves[1] == "wf"
-                    if tier == "quick" and heavy and L0 + L1 > 6:
+                    if heavy and L0 + L1 > (6 if quick else 7):
                         continue
-                    Mmax = 4 if (tier == "quick" and heavy) else n + 1
+                    Mmax = 4 if (quick and heavy) else (5 if (quick or big or heavy) else 6)
                     out.append({"kind": "retis", "L0": L0, "L1": L1, "ens0": ens0, "moves": list(moves), "Mmax": Mmax,
-                                "_cost": 9 ** (L0 + L1) * (20 if heavy else 1) * (3 if moves[1] == "wf" else 1),
-                                "_splitbits": (5 if heavy else 3) if (L0 + L1 >= 7 or moves[1] == "wf" or ens0 == "minus_lm1") else 0})
+                                "_cost": 9 ** (L0 + L1) * (20 if heavy else 1) * (3 if moves[1] == "wf" else 1) * 4 ** (Mmax - 4),
+                                "_splitbits": ((5 if heavy else 3) if quick else 7) if (L0 + L1 >= 7 or moves[1] == "wf" or ens0 == "minus_lm1") else (0 if quick else 4)})
             for var in ("plain", "accept_all", "noenergy"):
-                out.append({"kind": "quantis", "L0": L0, "L1": L1, "var": var, "Mmax": n + 1, "_cost": 9 ** (L0 + L1),
-                            "_splitbits": 3 if L0 + L1 >= 7 else 0})
+                out.append({"kind": "quantis", "L0": L0, "L1": L1, "var": var, "Mmax": 5 if (quick or big) else 6,
+                            "_cost": 9 ** (L0 + L1), "_splitbits": 3 if L0 + L1 >= 7 else 0})
     return out
 
 
